@@ -331,6 +331,8 @@ func (c *ctx) stmt(st ast.Stmt) (pre []ast.Stmt, self ast.Stmt, post []ast.Stmt)
 				pre = append(pre, &ast.ExprStmt{X: rtCall("BeforeLock", addrOf(recv), boolLit(name == "Lock"), c.site("lock"))})
 			case "Unlock", "RUnlock":
 				post = append(post, &ast.ExprStmt{X: rtCall("AfterUnlock", addrOf(recv), boolLit(name == "Unlock"))})
+				// what follows an explicit unlock runs concurrently with whoever takes the lock next
+				post = append(post, c.yield("unlocked"))
 			}
 			return
 		}
